@@ -767,10 +767,15 @@ func TestKubernetesProviderConverges(t *testing.T) {
 		var history []string
 
 		nt := false
+		uids := map[int]types.UID{} // the uid an object currently has (it changes when the object is created anew)
 		mk := func(s int, kind, class string, gen int64) *v1alpha4.RuleSet {
+			if uids[s] == "" {
+				uids[s] = types.UID(fmt.Sprintf("uid-%d", s))
+			}
+
 			return &v1alpha4.RuleSet{
 				TypeMeta:   metav1.TypeMeta{APIVersion: "heimdall.dadrus.github.com/v1alpha4", Kind: "RuleSet"},
-				ObjectMeta: metav1.ObjectMeta{Name: fmt.Sprintf("src%d", s), Namespace: "default", UID: types.UID(fmt.Sprintf("uid-%d", s)), Generation: gen},
+				ObjectMeta: metav1.ObjectMeta{Name: fmt.Sprintf("src%d", s), Namespace: "default", UID: uids[s], Generation: gen},
 				Spec:       v1alpha4.RuleSetSpec{AuthClassName: class, Rules: ruleSetRules(s, kind)},
 				// whatever the status says (other instances and other controllers write it as well)
 				Status: v1alpha4.RuleSetStatus{ActiveIn: rapid.SampledFrom([]string{"", "", "1/1", "2/3", "1", "x", "1/2/3", "/"}).Draw(t, "activeIn")},
@@ -795,7 +800,7 @@ func TestKubernetesProviderConverges(t *testing.T) {
 			k8sMode.Store(mode)
 			nt = nt || mode != 0
 
-			switch op := rapid.SampledFrom([]string{"apply", "apply", "apply", "delete", "resync", "metadata"}).Draw(t, "op"); {
+			switch op := rapid.SampledFrom([]string{"apply", "apply", "apply", "delete", "resync", "metadata", "recreate"}).Draw(t, "op"); {
 			case op == "delete" && old != nil:
 				want := []string(nil)
 				if old.Spec.AuthClassName == "mine" {
@@ -818,6 +823,27 @@ func TestKubernetesProviderConverges(t *testing.T) {
 
 				delete(objects, s)
 				checkStep(t, w, rec, m, nsrc, want, history)
+			case op == "recreate" && old != nil && old.Spec.AuthClassName == "mine":
+				// the object was deleted and created again under the same name while the watch was interrupted: after
+				// the re-list the informer reports one update from the old object to the new one (other uid, the
+				// generation starts at 1 again)
+				kind := rapid.SampledFrom([]string{"v1", "v2", "v3"}).Draw(t, "content")
+				uids[s] = types.UID(fmt.Sprintf("uid-%d-recreated-%d", s, i))
+				obj := mk(s, kind, "mine", 1)
+
+				want := m.observe(s, "gone")
+				if len(want) == 0 {
+					want = []string{"deleted"} // the deletion of the old object is always forwarded; harmless for an unknown rule set
+				}
+
+				want = append(want, m.observe(s, kind)...)
+				history = append(history, fmt.Sprintf("src%d deleted and created again as %s (uid %s, gen 1; old gen %d), delivered as one update", s, kind, obj.UID, old.Generation))
+
+				guard(t, history, func() { h.OnUpdate(old, obj) })
+				objects[s], kindOf[s] = obj, kind
+				checkStep(t, w, rec, m, nsrc, want, history)
+
+				nt = true
 			case op == "resync" && old != nil:
 				history = append(history, fmt.Sprintf("resync src%d", s))
 
